@@ -281,7 +281,12 @@ pub fn extract_tls_signature_from_client_hello(
         match parse_tls_extensions(ext_data) {
             Ok((_remaining, parsed_extensions)) => {
                 for extension in &parsed_extensions {
-                    let ext_type: u16 = TlsExtensionType::from(extension).into();
+                    // tls-parser reports every 0x?A?A extension type as its `Grease` variant (mapped
+                    // to 0xfafa); keep the number on the wire, only the 16 RFC 8701 values are GREASE
+                    let ext_type: u16 = match extension {
+                        TlsExtension::Grease(wire_type, _) => *wire_type,
+                        other => TlsExtensionType::from(other).into(),
+                    };
 
                     // Filter GREASE extensions
                     if !TLS_GREASE_VALUES.contains(&ext_type) {
